@@ -102,6 +102,13 @@ pub fn run_case(ctx: &mut Ctx, case: &Value) {
             return;
         }
     };
+    if kb && payload.get("cnf") != Some(&jwk) {
+        ctx.report.diff("property", "Issuer::encode", "Issuer::encode:cnf-is-not-the-required-key", case,
+            json!({"cnf": payload.get("cnf"), "earlier_encodes": reissue}));
+    }
+    if !kb && payload.get("cnf").is_some() && claims.get("cnf").is_none() {
+        ctx.report.diff("property", "Issuer::encode", "Issuer::encode:cnf-without-key-binding", case, json!({"cnf": payload.get("cnf")}));
+    }
     // --- spec view of the issued token
     let spec = tree_op(ctx, "sha-256", &tree, payload.get("_sd"), &[]);
     if payload.get("_sd_alg") != Some(&json!("sha-256")) {
